@@ -1017,3 +1017,11 @@ fire("c12-verbatim-owner-lowercased-on-import", ["C12", "C05"], ["C12.verbatim",
      (GENV, "		k.Logger(ctx).Debug(\"set account vesting pools\", \"accountVestingPool\", av)\n		k.SetAccountVestingPools(ctx, *av)", "		k.Logger(ctx).Debug(\"set account vesting pools\", \"accountVestingPool\", av)\n		av.Owner = sdk.MustAccAddressFromBech32(av.Owner).String()\n		k.SetAccountVestingPools(ctx, *av)"))
 fire("c05-gen-balance-in-default-denom", ["C05", "C12"], ["C05.gen", "C12.importall"],
      (GENV, "	modBalance := bk.GetBalance(ctx, mAcc.GetAddress(), genState.Params.Denom)", "	modBalance := bk.GetBalance(ctx, mAcc.GetAddress(), types.DefaultDenom)"))
+# ---------------- round-10 rules ----------------
+fire("c12-initorder-distributor-behind-crisis", "C12", ["C12.initorder"],
+     ("app/app.go", "		govtypes.ModuleName,\n		cfedistributormoduletypes.ModuleName,\n		cfevestingmoduletypes.ModuleName,\n		crisistypes.ModuleName,", "		govtypes.ModuleName,\n		cfevestingmoduletypes.ModuleName,\n		crisistypes.ModuleName,\n		cfedistributormoduletypes.ModuleName,"))
+fire("c07-guard-split-refused-after-the-end", "C07", ["C07.guard"],
+     (SPLIT, "	startTime := ctx.BlockTime().Unix()\n	if vestingAcc.StartTime > startTime {\n		startTime = vestingAcc.StartTime\n	}", "	startTime := ctx.BlockTime().Unix()\n	if vestingAcc.StartTime > startTime {\n		startTime = vestingAcc.StartTime\n	}\n	if startTime >= vestingAcc.EndTime {\n		return sdkerrors.Wrapf(types.ErrParam, \"split vesting coins - vesting already ended\")\n	}"))
+fire("c08-fresh-blocked-address-asked-after-creation", "C08", ["C08.fresh"],
+     (VESTGO, "	if bk.BlockedAddr(toAddress) {\n		k.Logger(ctx).Debug(\"new vesting account is not allowed to receive funds error\", \"address\", toAddress)\n		return sdkerrors.Wrapf(types.ErrAccountNotAllowedToReceiveFunds, \"new vesting account - account address: %s\", toAddress)\n	}\n\n	if acc := ak.GetAccount(ctx, toAddress); acc != nil {", "	if acc := ak.GetAccount(ctx, toAddress); acc != nil {"),
+     (VESTGO, "	coinsToSend := sdk.NewCoins(coinToSend)\n	err = k.bank.SendCoinsFromModuleToAccount(ctx, types.ModuleName, toAddress, coinsToSend)", "	if bk.BlockedAddr(toAddress) {\n		return sdkerrors.Wrapf(types.ErrAccountNotAllowedToReceiveFunds, \"new vesting account - account address: %s\", toAddress)\n	}\n	coinsToSend := sdk.NewCoins(coinToSend)\n	err = k.bank.SendCoinsFromModuleToAccount(ctx, types.ModuleName, toAddress, coinsToSend)"))
